@@ -38,7 +38,16 @@ Law3Clauses(o) ==
        \o (IF T(r.ab_lt) /\ T(r.bc_lt) /\ ~T(r.ac_lt) THEN <<"order_not_transitive">> ELSE <<>>)
        \o (IF (T(r.ab_eq) /\ T(r.bc_lt) /\ ~T(r.ac_lt)) \/ (T(r.ab_lt) /\ T(r.bc_eq) /\ ~T(r.ac_lt)) THEN <<"order_not_compatible_with_equality">> ELSE <<>>)
 
-Verdict(o) == IF "kind" \in DOMAIN o /\ o.kind = "laws3"
+(* a date against the serial the library itself gives for it (N): equal to it, and strictly between serial - 1/2 and serial + 1/2 *)
+SelfSerialClauses(o) ==
+  LET r == o.r IN
+  IF ~(IsB(r.eq) /\ IsB(r.lt) /\ IsB(r.gt) /\ IsB(r.below) /\ IsB(r.above)) THEN <<"not_a_logical">>
+  ELSE (IF T(r.eq) /\ ~T(r.lt) /\ ~T(r.gt) THEN <<>> ELSE <<"date_differs_from_its_own_serial">>)
+       \o (IF T(r.below) /\ T(r.above) THEN <<>> ELSE <<"date_not_between_the_neighbours_of_its_serial">>)
+
+Verdict(o) == IF "kind" \in DOMAIN o /\ o.kind = "selfserial"
+              THEN (IF SelfSerialClauses(o) = <<>> THEN <<"ok">> ELSE <<"bad">> \o SelfSerialClauses(o))
+              ELSE IF "kind" \in DOMAIN o /\ o.kind = "laws3"
               THEN (IF Law3Clauses(o) = <<>> THEN <<"ok">> ELSE <<"bad">> \o Law3Clauses(o))
               ELSE IF "kind" \in DOMAIN o /\ o.kind = "laws"
               THEN (IF LawClauses(o) = <<>> THEN <<"ok">> ELSE <<"bad">> \o LawClauses(o))
